@@ -4,8 +4,11 @@ hydro_lang::setup!();
 
 pub mod c28;
 pub mod c30;
+pub mod asyncf;
 pub mod c32;
 pub mod matrix;
 pub mod compose;
 pub mod net;
+pub mod obs33;
 pub mod sec;
+pub mod t33;
